@@ -28,3 +28,8 @@ pub fn create_for_loop_iterator(value: &Value) -> (r: Option<ForLoopIterator>)
         items_of(value) is None ==> r is None,
         items_of(value) is Some ==> r is Some && r->Some_0.rest() == items_of(value)->Some_0,
 { unimplemented!() }
+// `Value: Clone` (derived in the real source): the clone is an equal value
+impl Clone for Value {
+    #[verifier::external_body]
+    fn clone(&self) -> (r: Self) ensures r == *self { unimplemented!() }
+}
